@@ -125,13 +125,15 @@ theorem scalar_field_value (fuel : Nat) (name : Chars) (e : Expr) (bt : Bool) (t
         (GoVals.cons (wrapPtr k (createValue sv s res))) :=
   Unm.scalar_field_value run sv fuel name e bt ty rest vals n res k s hr hty
 
-/-- string fields: the string value; bool fields: the boolean value; numeric fields: the number -/
+/-- string fields: the string value; bool fields: the boolean value; numeric fields: the number
+    (float32 fields: rounded to the nearest binary32 value, as Go's `float32(x)` does) -/
 theorem conversions (res : Val) (b : Nat) :
     createValue sv .str res = .str (Model.toStr sv res) ∧
     createValue sv .bool res = .bool (Model.toBool res) ∧
     createValue sv (.int b) res = .int (toInt (Model.toNum sv res)) ∧
     createValue sv (.uint b) res = .int (toInt (Model.toNum sv res)) ∧
-    createValue sv (.float b) res = .float (Model.toNum sv res) :=
+    createValue sv (.float b) res
+      = .float (if b == 32 then Num.toFloat32 (Model.toNum sv res) else Model.toNum sv res) :=
   ⟨rfl, rfl, rfl, rfl, rfl⟩
 
 /-- struct and slice fields: filled recursively, from the zero value, with the result of the tag -/
